@@ -75,6 +75,15 @@ pub struct Alphabet {
 
 pub const CORE: Alphabet = Alphabet { leaves: LEAVES, unary: UNARY, binary: BINARY };
 
+/// control-flow skeletons: conditionals, else chains, short-circuit operators and explicit parentheses (which detach a
+/// conditional from a chain) over constant conditions (`$!` false, `1` true and a value), deep enough (8 nodes) for a conditional inside the arm or
+/// default of another one
+pub const CONTROL: Alphabet = Alphabet {
+    leaves: &[("False", "$!"), ("Number", "1")],
+    unary: &["Not", "Group"],
+    binary: &["JumpIfTrue", "JumpIfFalse", "ElseJump", "And", "Or", "Addition"],
+};
+
 impl Alphabet {
     /// number of trees with exactly n nodes
     pub fn count_exact(&self, n: usize, memo: &mut Vec<u64>) -> u64 {
